@@ -157,7 +157,13 @@ class CWorld(object):
                 kw.pop("reference")
                 if not self.obj.startswith("xy"):
                     kw.pop("axis")
+                # the caller owns the arrays it passes in: it hands over private float copies and scribbles on them right after the call
+                mine = {k_: np.array(v_, dtype=float) for k_, v_ in kw.items() if isinstance(v_, np.ndarray)}
+                kw.update(mine)
                 getattr(c, meth)(name=op[2], **kw)
+                for v_ in mine.values():
+                    v_ *= 3.0
+                    v_ += 0.5
                 self.sources.append([op[2], op[1], True])
             elif k == "dis":
                 c.disable_error(op[1])
